@@ -6,6 +6,7 @@ import PS.Proofs.Enum.BeeNodupRun
 import PS.Proofs.Enum.BeeCover
 import PS.Proofs.Enum.BeeOffer
 import PS.Proofs.Enum.BeeFullRun
+import PS.Proofs.Enum.BeeTermRun
 import Mathlib.Data.List.Perm.Subperm
 namespace PS.C02Bee
 open PS PS.G PS.Bee
@@ -265,10 +266,37 @@ theorem C02_Bee_full_take_partial (E : Env S) (h1 : nonnegW E = true) (h2 : posA
   exact C02_Bee_full_partial E h1 h2 h3 h4 h5 h6 hfix hnofilter fuel [.take k] (by simp [Act.isTake]) g0 g out h0 hrun
     (hdone rfl) L hL hLnd hmax
 
+/-- **TERMINATION** of the repaired generator loop when a bound `maxCost = some m` is handed to it (finite grammar), any
+    filter: there are a fuel and a number of `next` calls after which the generator has raised StopIteration.  Proof
+    (PS/Proofs/Enum/BeeStrict.lean, BeeTotal.lean, BeeTerm*.lean): no step raises (`step_total`: indices of queued / delayed
+    combinations exist, every argument non-terminal has a bank: `closedOK`); a lexicographic measure decreases with every
+    step (`step_term`): the costs of the rounds strictly increase (`step_strict`: rules with arguments cost > 0) and stay
+    ≤ m, the non-terminals still to be handled in the round, the elements of the round's cost in the current queue (what a
+    pop pushes back is strictly more expensive), the candidate programs of the suspended product. -/
+theorem C02_Bee_terminates_partial (E : Env S) (h1 : nonnegW E = true) (h2 : posArgCosts E = true) (h3 : hasCosts E = true)
+    (h4 : dictOK E = true) (h5 : initFrontOK E = true) (h6 : initCoverOK E = true) (h7 : closedOK E = true)
+    (hfix : E.fixF11 = true) (m : Int) (hmax : E.maxCost = some m) (g0 : Gen S) (h0 : Gen.new E = some g0) :
+    ∃ fuel k g out, take E fuel k g0 [] = some (g, out, true) := by
+  have H := hyp_of_checks E h1 h2 h3 h4 h5 h6
+  exact take_terminates E H (closed_of_check E h7) hfix m hmax _ g0 rfl (tinv_new E H g0 h0) []
+
+/-- **C02 FOR BEE SEARCH (repaired loop), the full statement on a grammar whose members all cost at most `m`**: the
+    generator stops, and its output is a permutation of the language — every program exactly once, nothing else.
+    All hypotheses are decidable checks on the case (the cost bound and the list `L` of members are data). -/
+theorem C02_Bee_full (E : Env S) (h1 : nonnegW E = true) (h2 : posArgCosts E = true) (h3 : hasCosts E = true)
+    (h4 : dictOK E = true) (h5 : initFrontOK E = true) (h6 : initCoverOK E = true) (h7 : closedOK E = true)
+    (hfix : E.fixF11 = true) (hnofilter : ∀ p, E.filter p = true) (m : Int) (hmax : E.maxCost = some m) (g0 : Gen S)
+    (h0 : Gen.new E = some g0) (L : List Prog) (hL : ∀ p, p ∈ L ↔ gen E.G p E.G.start = true) (hLnd : L.Nodup)
+    (hLm : ∀ p ∈ L, pcost E p E.G.start ≤ m) :
+    ∃ fuel k g out, take E fuel k g0 [] = some (g, out, true) ∧ out.Perm L := by
+  obtain ⟨fuel, k, g, out, ht⟩ := C02_Bee_terminates_partial E h1 h2 h3 h4 h5 h6 h7 hfix m hmax g0 h0
+  exact ⟨fuel, k, g, out, ht, C02_Bee_full_take_partial E h1 h2 h3 h4 h5 h6 hfix hnofilter fuel k g0 g out h0 ht L hL hLnd
+    (fun m' hm' p hp => by rw [hmax] at hm'; cases hm'; exact hLm p hp)⟩
+
 /-- the example grammar with the repaired loop: the most expensive program `(+ var0 var0)` costs 6 -/
 def cF : Env Nat := { cE with fixF11 := true, maxCost := some 6 }
 example : nonnegW cF = true ∧ posArgCosts cF = true ∧ hasCosts cF = true ∧ dictOK cF = true ∧ initFrontOK cF = true ∧
-    initCoverOK cF = true := by decide +kernel
+    initCoverOK cF = true ∧ closedOK cF = true := by decide +kernel
 example : ((Gen.new cF).bind fun g => take cF 1000 10 g []).map (fun r => (r.2.1.length, r.2.2)) = some (5, true) := by
   decide +kernel
 
